@@ -485,6 +485,7 @@ int32_t matrixSslDecodeTls12AndBelow(ssl_t *ssl,
     int32 rc;
     unsigned char padLen;
     psBool_t discardRec = PS_FALSE;
+    psBool_t keepInput = PS_FALSE;
 
 # ifdef USE_CLIENT_SIDE_SSL
     sslSessOpts_t options;
@@ -1754,10 +1755,14 @@ ADVANCE_TO_APP_DATA:
                     }
                     else
                     {
-                        /* If this asserts, please report the values of the
-                         * c byte and ssl->hsState to support */
-                        psAssert(origbuf + *len == c);
-                        *buf = origbuf;
+                        /* Other records (an alert, typically) are waiting
+                           behind the one that ended the peer's flight.  They
+                           must not be overwritten by our response: encode
+                           that into outbuf and let the caller go on decoding
+                           behind this record. */
+                        *remaining = *len - (c - origbuf);
+                        *buf = c;
+                        keepInput = PS_TRUE;
                     }
 #if defined(ENABLE_FALSE_START)
                 }
@@ -1878,8 +1883,7 @@ encodeResponse:
     We decoded a record that needs a response, either a handshake response
     or an alert if we've detected an error.
  */
-# ifdef ENABLE_FALSE_START
-    if ((ssl->flags & SSL_FLAGS_FALSE_START) && *buf != origbuf)
+    if (((ssl->flags & SSL_FLAGS_FALSE_START) || keepInput) && *buf != origbuf)
     {
         /*
             Encode the output into ssl->outbuf in this case, rather than back
@@ -1895,7 +1899,6 @@ encodeResponse:
         Memset(origbuf, 0x0, (*buf - origbuf)); /* SECURITY (see below) */
     }
     else
-# endif
     {
         psAssert(origbuf == *buf);
         tmpout.buf = tmpout.end = tmpout.start = origbuf;
@@ -1968,14 +1971,20 @@ encodeResponse:
             *alertDescription = (unsigned char) ssl->err;
             *alertLevel = SSL_ALERT_LEVEL_FATAL;
         }
-# ifdef ENABLE_FALSE_START
-        if ((ssl->flags & SSL_FLAGS_FALSE_START) && *buf != origbuf)
+        if (((ssl->flags & SSL_FLAGS_FALSE_START) || keepInput) &&
+            *buf != origbuf)
         {
             /* Update outlen with the data we added */
             ssl->outlen += tmpout.end - tmpout.buf;
+            if (keepInput)
+            {
+                /* Not SSL_SEND_RESPONSE: the caller would drop the rest of
+                   its input.  It finds the response in outbuf once it has
+                   decoded that (as with TLS 1.3). */
+                return MATRIXSSL_SUCCESS;
+            }
         }
         else
-# endif
         {
             *remaining = 0;
             *len = tmpout.end - tmpout.buf;
@@ -1984,7 +1993,6 @@ encodeResponse:
     }
     if (rc == SSL_FULL)
     {
-# if defined(ENABLE_FALSE_START)
         /* We don't support growing outbuf in the false start or early data case */
         if (*buf != origbuf)
         {
@@ -1992,7 +2000,6 @@ encodeResponse:
             *error = rc;
             return MATRIXSSL_ERROR;
         }
-# endif
         ssl->flags |= SSL_FLAGS_NEED_ENCODE;
         *len = 0; /* No data left to decode */
         /* requiredLen is set by sslEncode Response or ClientHello above */
